@@ -2,13 +2,14 @@
 
 from __future__ import annotations
 
+import os
 import tempfile
 
 from hypothesis import strategies as st
 
-from vlib import gen, serial
+from vlib import core, gen, serial
 from vlib.core import Part, nested_part
-from vlib.observe import Uids, snapshot
+from vlib.observe import Uids, snapshot, walk
 
 ID = "C05"
 LEVEL = "exploration"
@@ -219,7 +220,69 @@ def hyp_cases(draw, tier):
 RULE_ROUND8 = ' String profiles hold instances of a str subclass whose str() / format() texts differ from the value for a third of the labels; target stringio-offset (the stream stands behind an application header when save() and load() are called); value_map lists padded to 10 / 100 / 1000 entries; big trees (> 250 nodes) one case in 20. Part c-locale: the roundtrip part once more in a child interpreter with LC_ALL=C, UTF-8 mode and locale coercion off.'
 RULE = RULE + RULE_ROUND8
 
+def run_cross_process(case, rec):
+    """A file is written by ANOTHER interpreter process (another str hash seed) and read here: value objects without
+    an explicit data_id get the data_id this process calculates for them - lookups by data and clone groups work."""
+    import json as _json
+    import subprocess
+    import sys
+    import tempfile
+
+    spec = case["spec"]
+    rec.evals += 1
+    with tempfile.TemporaryDirectory(prefix="verif_c05x_") as tmp:
+        path = os.path.join(tmp, "parts.nutree")
+        code = ("import sys, json; sys.path.insert(0, sys.argv[3]); from vlib import serial; "
+                "t = serial.build_parts(json.loads(sys.argv[1])); t.save(sys.argv[2], mapper=serial.part_serialize_mapper)")
+        env = dict(os.environ, PYTHONHASHSEED=str(case["seed"]))
+        p = subprocess.run([sys.executable, "-c", code, _json.dumps(spec), path, os.path.dirname(os.path.dirname(os.path.abspath(__file__)))],
+                           env=env, capture_output=True, text=True, timeout=120)
+        if p.returncode != 0:
+            if "nutree" in p.stderr and "vlib" not in p.stderr.split("Traceback")[-1].split("nutree")[0][-200:]:
+                rec.fail("cross-process:writer-raises", p.stderr[-300:])
+                return
+            raise core.HarnessError("writer process failed: " + p.stderr[-400:])
+        try:
+            loaded = serial.Tree.load(path, mapper=serial.part_deserialize_mapper)
+        except Exception as e:  # noqa: BLE001
+            rec.fail(f"cross-process:load-raises:{type(e).__name__}", repr(e)[:200])
+            return
+    w = walk(loaded)
+
+    def shape_(nodes):
+        return [[n.data.name if isinstance(n.data, serial.Part) else repr(n.data), shape_(w.kids[id(n)])] for n in nodes]
+
+    exp = _json.loads(_json.dumps([[n[0], n[1]] for n in spec]))
+
+    def strip(sp):
+        return [[n[0], strip(n[1])] for n in sp]
+
+    if shape_(w.kids[id(None)]) != strip(spec):
+        rec.fail("cross-process:shape", {"loaded": shape_(w.kids[id(None)]), "spec": strip(spec)})
+        return
+    labels = {n.data.name for n in w.pre}
+    rec.nt(len(labels) < len(w.pre))
+    for n in w.pre:
+        if n.data_id != hash(n.data):
+            rec.fail("cross-process:data_id-is-not-this-process'-hash-of-the-data", {"node": n.data.name, "data_id": n.data_id, "hash": hash(n.data)})
+            return
+    for lab in sorted(labels):
+        found = loaded.find_all(serial.Part(lab))
+        want = [n for n in w.pre if n.data.name == lab]
+        if sorted(map(id, found)) != sorted(map(id, want)):
+            rec.fail("cross-process:lookup-by-data", {"label": lab, "found": len(found), "want": len(want)})
+            return
+    del exp
+
+
+@st.composite
+def cross_cases(draw, tier):
+    spec = draw(gen.forest_specs(max_nodes=10, max_depth=4, max_width=4, min_nodes=2, alphabet=["a", "b", "c", "dd", "ee"], big=False))
+    return {"spec": spec, "seed": draw(st.sampled_from([1, 5, 77, 1234]))}
+
+
 PARTS = [
     Part("roundtrip", run, strategy=lambda tier: hyp_cases(tier), n={"quick": 1000, "thorough": 100000}),
     nested_part("C05", ["roundtrip"], {"LC_ALL": "C", "LANG": "C", "PYTHONUTF8": "0", "PYTHONCOERCECLOCALE": "0", "PYTHONIOENCODING": "utf8"}, "c-locale", "text files opened without an explicit encoding are read and written as ASCII"),
+    Part("cross-process", run_cross_process, strategy=lambda tier: cross_cases(tier), n={"quick": 16, "thorough": 400}),
 ]
